@@ -1340,6 +1340,7 @@ func c20Instances(add func(*Instance), thorough bool) {
 		}
 		base := P("nv", 2, "w", 2, "par", 0)
 		if pkg == "bsi" {
+			ad(with(base, "q", 4, "fs", 0, "full", 1), 0) // BatchEqual over the whole value domain, then the result is changed
 			// BitSliceIndexing with negative values (the index then uses 64 two's-complement planes)
 			for cop := 1; cop <= 6; cop++ {
 				tier := 0
